@@ -102,6 +102,7 @@ type probe struct {
 	offLoop  [nKinds + 1]atomic.Int64 // per kind; last slot: any other entry (Started, setup ...)
 	inflight atomic.Int32
 	quiet    atomic.Bool // teardown: what runs is still checked but no longer counted
+	other    *probe      // the probe of the second instrumented service (its timers), folded into the report
 	maxIn    atomic.Int32
 	exec     [nKinds]atomic.Int64
 	prod     [nKinds]atomic.Int64
@@ -134,6 +135,17 @@ func (p *probe) enter(kind int) func() {
 			p.exec[kind].Add(1)
 		}
 	}
+}
+
+// check is enter for a piece that is only observed (goroutine, overlap), never counted
+func (p *probe) check(kind int) func() {
+	done := p.enter(-1)
+	if ref := p.loopGid.Load(); kind >= 0 {
+		if id, inLoop := where(); !inLoop || (ref != 0 && id != ref) {
+			p.offLoop[kind].Add(1)
+		}
+	}
+	return done
 }
 
 // ---- the instrumented service
@@ -261,6 +273,24 @@ func (s *sessHandler) Process(fs *cs.FrontSession, msg *msgs.ClientMsg) { defer 
 func (s *sessHandler) OnSessionAdd(fs *cs.FrontSession)                 { defer s.p.enter(kSessAdd)() }
 func (s *sessHandler) OnSessionRemove(fs *cs.FrontSession)              { defer s.p.enter(kSessRemove)() }
 
+// a custom kick handler: user code of the service, reached through ClientSessions.Kick
+type kickHandler struct{ p *probe }
+
+func (k *kickHandler) HandleKick(n *ns.NodeService, sessions *impls.ClientSessions, netId uint32) {
+	defer k.p.check(kSessMsg)()
+}
+
+// client message types: clients send Request and Notify, but Response and Push decode as well
+// and are forwarded to the service like the others
+var msgTypes = []message.Type{message.Request, message.Notify, message.Response, message.Push}
+
+// registered waits (bounded) until the service has given the connection its id
+func registered(fs *fakeSession) {
+	for t0 := time.Now(); fs.GetId() == 0 && time.Since(t0) < 100*time.Millisecond; {
+		time.Sleep(50 * time.Microsecond)
+	}
+}
+
 type fakeSession struct {
 	id     atomic.Uint32
 	closed atomic.Bool
@@ -314,7 +344,7 @@ func cfgn(cfg []int64, i int) int {
 //
 //	cfg = [peers, reqPerPeer, notifyPerPeer, responses, timeouts, timerProducers, perTimerProducer,
 //	       posters, perPoster, publishers, localPerPublisher, globalPerPublisher, conns, msgsPerConn,
-//	       mode, ovLocal, ovGlobal, ovPost, ovTimer, ovSessMsg, ovRequest, edgeRounds, siblings, direct, teardown]
+//	       mode, ovLocal, ovGlobal, ovPost, ovTimer, ovSessMsg, ovRequest, edgeRounds, siblings, direct, teardown, xsvcRounds]
 //
 // mode 1: before anything else the service actor is crashed once (a message whose handler
 // panics) and restarted by its supervisor.  mode 2: the same props is spawned a second time;
@@ -339,6 +369,14 @@ func cfgn(cfg []int64, i int) int {
 // are published and requests arrive, the run service is stopped.  From then on work may be
 // dropped (the property says where a piece runs, not that it must run) - but whatever still
 // runs must run on the loop goroutine, one piece at a time.  Teardown work is not counted.
+//
+// xsvcRounds: a SECOND instrumented service (the echo peer: its own run service, timer manager and
+// loop goroutine, its own probe) is involved: per round, 8 timers of the service expire while
+// the service is held busy and are cancelled while they sit in its timer queue (half by the
+// service itself, half by a foreign goroutine); in that window the second service arms 16
+// timers of its own (8 from a foreign goroutine, 8 from its own loop); then the first service
+// is released.  Every callback is observed with (owning service, goroutine): a callback of one
+// service on the other's loop goroutine counts as off-loop for the timer kind.
 //
 // edgeRounds: that many rounds of "boundary" work run concurrently with everything else: timers
 // with delay 0 / negative / 1ns / 1ms, one-shot and repeating, armed from a foreign goroutine;
@@ -365,6 +403,7 @@ func runStress(seed int64, cfg []int64) any {
 	edgeRounds := cfgn(cfg, 21)
 	siblings := cfgn(cfg, 22)
 	direct, teardown := cfgn(cfg, 23) > 0, cfgn(cfg, 24)
+	xsvcRounds := cfgn(cfg, 25)
 	if direct {
 		perLocal, ovLocal = 0, 0
 	}
@@ -522,6 +561,7 @@ func runStress(seed int64, cfg []int64) any {
 	}
 	sessions := impls.NewClientSessions(tag + "-front")
 	sessions.SetHandler(&sessHandler{p})
+	sessions.SetKickHandler(&kickHandler{p})
 	impl := pomelo.NewSessionsImpl(rs.GetScheduler(), sessions)
 
 	tm := rs.GetTimerMgr()
@@ -607,7 +647,7 @@ func runStress(seed int64, cfg []int64) any {
 					impl.OnSessionClose(fs)
 					p.prod[kSessRemove].Add(1)
 				default:
-					impl.ProcessMessage(fs, &message.Message{Type: message.Request, ID: uint(j), Route: "x.y.z"})
+					impl.ProcessMessage(fs, &message.Message{Type: msgTypes[j%len(msgTypes)], ID: uint(j), Route: "x.y.z"})
 					p.prod[kSessMsg].Add(1)
 				}
 			})
@@ -648,6 +688,75 @@ func runStress(seed int64, cfg []int64) any {
 		}
 		if !waitCaughtUp(dl) {
 			return stressTerm(p.maxIn.Load() <= 1, p)
+		}
+	}
+
+	if xsvcRounds > 0 {
+		pB := &probe{}
+		p.other = pB
+		gidB, tokB := make(chan int64, 1), make(chan int, 1)
+		echo.GetRunService().GetSelector().AddSelector("c04-ref", sche.NewFuncSelector(reflect.ValueOf(tokB),
+			func(v reflect.Value, recvOk bool) {
+				id, _ := where()
+				gidB <- id
+			}))
+		tokB <- 1
+		select {
+		case id := <-gidB:
+			pB.loopGid.Store(id)
+		case <-time.After(5 * time.Second):
+			return stressTerm(false, p)
+		}
+		tmB := echo.GetRunService().GetTimerMgr()
+		const k = 8
+		for round := 0; round < xsvcRounds; round++ {
+			inside, cancelNow, cancelled, gate := make(chan struct{}), make(chan struct{}), make(chan struct{}), make(chan struct{})
+			ids := make([]timer.IdType, k)
+			svc.Post(func() {
+				defer p.enter(-1)()
+				close(inside)
+				<-cancelNow
+				for i := 0; i < k; i += 2 { // the service cancels its own expired timers while busy
+					tm.Cancel(ids[i])
+				}
+				close(cancelled)
+				<-gate
+			})
+			select {
+			case <-inside:
+			case <-time.After(5 * time.Second):
+				return stressTerm(false, p)
+			}
+			for i := range ids { // they expire at once and wait in the held service's timer queue
+				ids[i] = tm.After(edgeDelays[i%4], func(args ...interface{}) { defer p.check(kTimer)() })
+			}
+			time.Sleep(3 * time.Millisecond)
+			close(cancelNow)
+			<-cancelled
+			for i := 1; i < k; i += 2 {
+				tm.Cancel(ids[i])
+			}
+			// the other service arms its timers now
+			pB.prod[kTimer].Add(2 * k)
+			for i := 0; i < k; i++ {
+				tmB.After(time.Millisecond, func(args ...interface{}) { defer pB.enter(kTimer)() })
+			}
+			armed := make(chan struct{})
+			echo.Post(func() {
+				for i := 0; i < k; i++ {
+					tmB.After(time.Millisecond, func(args ...interface{}) { defer pB.enter(kTimer)() })
+				}
+				close(armed)
+			})
+			select {
+			case <-armed:
+			case <-time.After(5 * time.Second):
+				return stressTerm(false, p)
+			}
+			close(gate)
+			for t0 := time.Now(); pB.exec[kTimer].Load() < pB.prod[kTimer].Load() && time.Since(t0) < 5*time.Second; {
+				time.Sleep(200 * time.Microsecond)
+			}
 		}
 	}
 
@@ -830,7 +939,8 @@ func runStress(seed int64, cfg []int64) any {
 				impl.OnSessionClose(fs)
 				p.prod[kSessRemove].Add(1)
 			default:
-				impl.ProcessMessage(fs, &message.Message{Type: message.Request, ID: uint(j), Route: "x.y.z"})
+				registered(fs)
+				impl.ProcessMessage(fs, &message.Message{Type: msgTypes[j%len(msgTypes)], ID: uint(j), Route: "x.y.z"})
 				p.prod[kSessMsg].Add(1)
 			}
 		})
@@ -896,7 +1006,7 @@ func runStress(seed int64, cfg []int64) any {
 					impl.OnSessionClose(fs)
 					closed = true
 				default:
-					impl.ProcessMessage(fs, &message.Message{Type: message.Request, ID: uint(i + 1), Route: "x.y.z"})
+					impl.ProcessMessage(fs, &message.Message{Type: msgTypes[i%len(msgTypes)], ID: uint(i + 1), Route: "x.y.z"})
 				}
 			})
 		}
@@ -957,15 +1067,27 @@ func runStress(seed int64, cfg []int64) any {
 func stressTerm(one bool, p *probe) any {
 	var off, prod, exec []int64
 	for k := 0; k <= nKinds; k++ {
-		if p.offLoop[k].Load() > 0 {
+		n := p.offLoop[k].Load()
+		if o := p.other; o != nil && k == kTimer {
+			for j := 0; j <= nKinds; j++ {
+				n += o.offLoop[j].Load()
+			}
+		}
+		if n > 0 {
 			off = append(off, 1)
 		} else {
 			off = append(off, 0)
 		}
 	}
 	for k := 0; k < nKinds; k++ {
-		prod = append(prod, p.prod[k].Load())
-		exec = append(exec, p.exec[k].Load())
+		a, b := p.prod[k].Load(), p.exec[k].Load()
+		if o := p.other; o != nil {
+			a, b = a+o.prod[k].Load(), b+o.exec[k].Load()
+		}
+		prod, exec = append(prod, a), append(exec, b)
+	}
+	if o := p.other; o != nil && o.maxIn.Load() > 1 {
+		one = false
 	}
 	return hx.C("EStress", off, one, prod, exec)
 }
